@@ -346,10 +346,10 @@ class CookieJar(AbstractCookieJar):
                 domain = ""
                 del cookie["domain"]
 
-            if not domain and hostname is not None:
+            host_only = not domain and hostname is not None
+            if host_only:
                 # Set the cookie's domain to the response hostname
-                # and set its host-only-flag
-                self._host_only_cookies.add((hostname, name))
+                # (its host-only-flag is recorded once it is accepted)
                 domain = cookie["domain"] = hostname
 
             if domain and domain[0] == ".":
@@ -360,6 +360,13 @@ class CookieJar(AbstractCookieJar):
             if hostname and not self._is_domain_match(domain, hostname):
                 # Setting cookies for different domains is not allowed
                 continue
+
+            # The new cookie replaces the host-only-flag of an earlier one
+            # with the same name: a Domain cookie is no longer host-only.
+            if host_only:
+                self._host_only_cookies.add((domain, name))
+            else:
+                self._host_only_cookies.discard((domain, name))
 
             path = cookie["path"]
             if not path or path[0] != "/":
@@ -380,12 +387,18 @@ class CookieJar(AbstractCookieJar):
                     self._expire_cookie(max_age_expiration, domain, path, name)
                 except ValueError:
                     cookie["max-age"] = ""
+                    self._expirations.pop((domain, path, name), None)
 
             elif expires := cookie["expires"]:
                 if expire_time := self._parse_date(expires):
                     self._expire_cookie(expire_time, domain, path, name)
                 else:
                     cookie["expires"] = ""
+                    self._expirations.pop((domain, path, name), None)
+            else:
+                # A session cookie must not inherit the deadline of the
+                # cookie it replaces.
+                self._expirations.pop((domain, path, name), None)
 
             key = (domain, path)
             if self._cookies[key].get(name) != cookie:
